@@ -120,7 +120,10 @@ impl NetworkAddress {
 
     /// Decode space-separated words to a socket address.
     fn decode_words(enc: &FourWordAdaptiveEncoder, words: &str) -> Result<SocketAddr> {
-        let decoded = enc.decode(words)?; // returns a normalized address string
+        // four-word-networking indexes out of bounds for some IPv6 word groups
+        // (also ones it produced itself); a decoder panic is a decode error here.
+        let decoded = std::panic::catch_unwind(std::panic::AssertUnwindSafe(|| enc.decode(words)))
+            .map_err(|_| anyhow!("four-word decoder failed on: {words}"))??;
         if let Ok(socket_addr) = decoded.parse::<SocketAddr>() {
             return Ok(socket_addr);
         }
